@@ -47,7 +47,7 @@ def gen_cases(tier, seed):
                 ne = (2, 2) if (cont == "r" or kind in ("rhf", "cisd")) else tuple(int(x) for x in rng.choice([[2, 2], [2, 1]]))
                 cases.append({"type": "propagate", "kind": kind, "container": cont, "norb": 4, "nelec": list(ne), "s": int(rng.integers(1 << 30)),
                               "dt": float(rng.choice([0.005, 0.02])), "group": "p-%s-%s-%s" % (kind, cont, ne), "cost": 8})
-    for pk in ("cpmc", "cpmc_slow"):
+    for pk in ("cpmc", "cpmc_slow", "cpmc_continuous"):
         for tk in ("uhf", "ghf"):
             for rep in range(1 if q else 4):
                 cases.append({"type": "cpmc", "prop": pk, "trial": tk, "lattice": str(rng.choice(["chain4", "grid2x2"])), "nelec": [2, int(rng.choice([1, 2]))],
@@ -289,7 +289,17 @@ def run_cpmc(case):
     from checks import c10
 
     nw = 6
-    S = c10._setup(case, np.random.default_rng(case["s"]), nw, "onsite", "fast" if case["prop"] == "cpmc" else "slow")
+    S = c10._setup(case, np.random.default_rng(case["s"]), nw, "onsite", "slow" if case["prop"] == "cpmc_slow" else "fast")
+    if case["prop"] == "cpmc_continuous":
+        import math
+
+        from ad_afqmc import propagation
+
+        S["prop"] = propagation.propagator_cpmc_continuous(dt=case["dt"], n_walkers=nw)
+        hd_c = dict(S["ham_data"])
+        hd_c["hs_constant"] = jnp.array(math.sqrt(case["u"] * case["dt"]))
+        hd_c = S["ham"].build_measurement_intermediates(hd_c, S["trial"], S["wave_data"])
+        S["ham_data"] = S["ham"].build_propagation_intermediates(hd_c, S["prop"], S["trial"], S["wave_data"])
     rng = np.random.default_rng(case["s"] + 1)
     n, na, nb = S["n"], S["na"], S["nb"]
     wu = S["a"][None] + case["noise"] * rng.normal(size=(nw, n, na))
